@@ -402,6 +402,16 @@ FUNCS = [
     dict(qual='_compile_content_encodings', gen='gen_compile_content_encodings', monadic=False, ret=COMPILED,
          params=[('encodings', TEXTS)],
          sig='(encmap : list (text * text)) (encodings : list text) : list (text * list text)', fall=None),
+    dict(qual='resolve_asset_spec', gen='gen_resolve_asset_spec', monadic=False, ret=PAIRPT, file='pyramid/asset.py',
+         params=[('spec', TEXT), ('pname', OPT)], defaults={'pname': "'__main__'"},
+         sig='(spec : text) (pname : option text) : option text * text', fall=None),
+    dict(qual='Configurator._make_spec', gen='gen_make_spec', monadic=False, ret=TEXT, file='pyramid/config/__init__.py',
+         params=[(None, SELF), ('path_or_spec', TEXT)], sig='(cfg_pkg : text) (path_or_spec : text) : text', fall=None,
+         self_attrs={'package_name': ('cfg_pkg', TEXT)}),
+    # StaticURLInfo.add: only its first statements, which normalise `spec` (the rest stays pinned, those statements dropped)
+    dict(qual='StaticURLInfo.add', gen='gen_static_add_spec', monadic=False, ret=TEXT, file='pyramid/config/views.py',
+         params=[(None, SELF), (None, ERASED), (None, ERASED), ('spec', TEXT)], allow_kwarg=True, prefix=2, result_var='spec',
+         sig='(spec : text) : text', fall=None),
     # __init__: the attribute stores are collected into a record (INIT_FIELDS, each stored exactly once)
     dict(qual='static_view.__init__', gen='gen_init', monadic=False, ret=VIEW, record=True,
          params=[(None, SELF), ('root_dir', TEXT), (None, ERASED), ('package_name', OPT), ('use_subpath', BOOL),
@@ -470,7 +480,7 @@ class Fn:
         if decos:
             self.module.check_global('lru_cache', 'functools')     # a transparent memo of a pure function
         a = fn.args
-        if a.vararg or a.kwarg or a.kwonlyargs or getattr(a, 'posonlyargs', []):
+        if a.vararg or (a.kwarg and not spec.get('allow_kwarg')) or a.kwonlyargs or getattr(a, 'posonlyargs', []):
             raise Problem('unexpected parameter list')
         if a.defaults:
             want = spec.get('defaults')
@@ -503,7 +513,25 @@ class Fn:
                 and isinstance(body[0].value.value, str):
             body = body[1:]
 
+        if spec.get('prefix'):
+            # only the leading statements are translated; they may assign nothing but the result variable and temporaries
+            # that die with them (checked: no name bound in the prefix other than the result is read afterwards)
+            head, tail = body[:spec['prefix']], body[spec['prefix']:]
+            bound = {n.id for st in head for n in ast.walk(st) if isinstance(n, ast.Name) and isinstance(n.ctx, ast.Store)}
+            later = {n.id for st in tail for n in ast.walk(st) if isinstance(n, ast.Name) and isinstance(n.ctx, ast.Load)}
+            leak = sorted((bound - {spec['result_var']}) & later)
+            if leak:
+                raise Problem('temporaries of the translated prefix are read later: %s' % ', '.join(leak))
+            if not all(isinstance(st, ast.If) for st in head):
+                raise Problem('the translated prefix is not made of if statements')
+            body = head
+
         def end(env):
+            if spec.get('result_var'):
+                v = env.get(spec['result_var'])
+                if v is None or v.ty != spec['ret']:
+                    raise Problem('%s is not a %s at the end of the translated prefix' % (spec['result_var'], spec['ret']))
+                return v.term
             if spec.get('record'):
                 args = []
                 for attr, ty in INIT_FIELDS:
@@ -609,6 +637,12 @@ class Fn:
             b1, v1 = self.expr(node.elts[0], env)
             b2, v2 = self.expr(node.elts[1], env)
             return b1 + b2, A('pair', self.as_opt(v1), self.as_opt(v2))
+        if want == PAIRPT and isinstance(node, ast.Tuple) and len(node.elts) == 2:
+            b1, v1 = self.expr(node.elts[0], env)
+            b2, v2 = self.expr(node.elts[1], env)
+            if b1 or b2 or v2.ty != TEXT:
+                raise Problem('return of (%s, %s)' % (v1.ty, v2.ty))
+            return [], A('pair', self.as_opt(v1), v2.term)
         binds, v = self.expr(node, env)
         if want == OPT:
             return binds, self.as_opt(v)
@@ -695,6 +729,28 @@ class Fn:
                 for e in tg.elts:
                     env2[e.id] = Val(K('tt'), ERASED)
                 return k(env2)
+            if isinstance(s.value, ast.Tuple) and len(s.value.elts) == 2:
+                env2 = dict(env)
+                for t_, e_ in zip(tg.elts, s.value.elts):
+                    b_, v_ = self.expr(e_, env)
+                    if b_:
+                        raise Problem('effect in a tuple display')
+                    env2[t_.id] = v_
+                return k(env2)
+            sv = s.value
+            if isinstance(sv, ast.Call) and isinstance(sv.func, ast.Attribute) and sv.func.attr == 'split' and len(sv.args) == 2 \
+                    and isinstance(sv.args[0], ast.Constant) and isinstance(sv.args[0].value, str) and len(sv.args[0].value) == 1 \
+                    and isinstance(sv.args[1], ast.Constant) and sv.args[1].value == 1 and isinstance(sv.func.value, ast.Name) \
+                    and not sv.keywords:
+                nm, ch = sv.func.value.id, ord(sv.args[0].value)
+                if nm not in env or env[nm].ty != TEXT:
+                    raise Problem('split of %s' % nm)
+                if not env.get('?in:%d:%s' % (ch, nm)):
+                    raise Problem('a, b = %s.split(%r, 1) where %r may not occur in %s (ValueError)' % (nm, chr(ch), chr(ch), nm))
+                env2 = dict(env)
+                env2[tg.elts[0].id] = Val(A('fst', A('split1', K(str(ch)), env[nm].term)), TEXT)
+                env2[tg.elts[1].id] = Val(A('snd', A('split1', K(str(ch)), env[nm].term)), TEXT)
+                return k(env2)
             binds, v = self.expr(s.value, env)
             if v.ty == PAIRPT:
                 env2 = dict(env)
@@ -710,7 +766,7 @@ class Fn:
         if not isinstance(tg, ast.Name):
             raise Problem('assignment target: %s' % u(tg))
         binds, v = self.expr(s.value, env)
-        env2 = dict(env)
+        env2 = {k_: v_ for k_, v_ in env.items() if not (k_.startswith('?in:') and k_.endswith(':' + tg.id))}
         env2[tg.id] = v
         return self.with_binds(binds, k(env2))
 
@@ -815,6 +871,20 @@ class Fn:
             rs, rn = self.restorer(name, r_some, v), self.restorer(name, r_none, v)
             fa = kf(env_none, rn)
             return MOpt(v.term, fa, b, mk_if(('atom', A('nonempty_text', K(b))), kt(env_some, rs), kf(env_some, rs)))
+        if isinstance(test, ast.BoolOp) and isinstance(test.op, ast.And) and len(test.values) == 2 \
+                and isinstance(test.values[0], ast.Name) and test.values[0].id in env \
+                and env[test.values[0].id].ty in (OPT, TEXT, NONE) and u(test.values[1]) == 'not isinstance(%s, str)' % test.values[0].id:
+            # x is a str or None in the model (table): a truthy x IS a str, the test is false, its branch is dead code
+            return kf(env)
+        if isinstance(test, ast.Compare) and len(test.ops) == 1 and isinstance(test.ops[0], ast.In) \
+                and isinstance(test.left, ast.Constant) and isinstance(test.left.value, str) and len(test.left.value) == 1 \
+                and isinstance(test.comparators[0], ast.Name) and test.comparators[0].id in env \
+                and env[test.comparators[0].id].ty == TEXT:
+            nm, ch = test.comparators[0].id, ord(test.left.value)
+            env_t = dict(env)
+            env_t['?in:%d:%s' % (ch, nm)] = True          # known in the true branch: s.split(c, 1) has two parts
+            b = ('atom', A('memN', K(str(ch)), env[nm].term))
+            return mk_if(b, simplify(kt(env_t), implied(b, True, {})), simplify(kf(env), implied(b, False, {})))
         if isinstance(test, ast.Name) and test.id in env and env[test.id].ty == TEXTS:
             # truthiness of a list: in the true branch (and in what follows, when the false branch leaves) the list is
             # known to be non-empty until it is modified -- `del x[-1]` is only translated under that knowledge
@@ -978,6 +1048,19 @@ class Fn:
             if v1.ty != TEXT or v2.ty != TEXT:
                 raise Problem('+ on %s and %s' % (v1.ty, v2.ty))
             return b1 + b2, Val(A('++', v1.term, v2.term), TEXT)
+        if isinstance(node, ast.JoinedStr):
+            parts = []
+            for piece in node.values:
+                if isinstance(piece, ast.Constant) and isinstance(piece.value, str):
+                    parts.append(lit(piece.value))
+                elif isinstance(piece, ast.FormattedValue) and piece.conversion == -1 and piece.format_spec is None:
+                    b_, v_ = self.expr(piece.value, env)
+                    if b_ or v_.ty != TEXT:
+                        raise Problem('f-string field of type %s' % v_.ty)
+                    parts.append(v_.term)
+                else:
+                    raise Problem('f-string piece outside the table: %s' % u(node))
+            return [], Val(A('++', *parts) if len(parts) > 1 else parts[0], TEXT)
         if isinstance(node, ast.Compare) and len(node.ops) == 1:
             return self.compare(node, env)
         if isinstance(node, ast.Attribute):
@@ -1024,6 +1107,14 @@ class Fn:
         raise Problem('comparison outside the table: %s' % u(node))
 
     def attribute(self, node, env):
+        sa = self.spec.get('self_attrs')
+        if sa and isinstance(node.value, ast.Name) and node.value.id == self.self_name:
+            if node.attr not in sa:
+                raise Problem('self.%s is not in the table' % node.attr)
+            return [], Val(K(sa[node.attr][0]), sa[node.attr][1])
+        if u(node) == 'os.sep' and 'os' not in env:
+            self.module.check_plain_import('os')
+            return [], Val(lit('/'), TEXT)                 # POSIX
         if self.spec.get('record') and isinstance(node.value, ast.Name) and node.value.id == self.self_name:
             # inside __init__ an attribute read sees what __init__ itself has stored so far
             v = env.get('@' + node.attr)
@@ -1062,6 +1153,18 @@ class Fn:
         # ---- methods
         if isinstance(f, ast.Attribute):
             # str methods
+            if u(f) == 'os.path.isabs' and len(args) == 1 and 'os' not in env:
+                self.module.check_plain_import('os')
+                b0, v0 = self.expr(args[0], env)
+                if b0 or v0.ty != TEXT:
+                    raise Problem('isabs of a %s' % v0.ty)
+                return [], Val(A('startswith', lit('/'), v0.term), BOOL)      # POSIX
+            if f.attr == 'endswith' and len(args) == 1 and not isinstance(args[0], ast.Constant):
+                b0, v0 = self.expr(f.value, env)
+                b1, v1 = self.expr(args[0], env)
+                if b0 or b1 or v0.ty != TEXT or v1.ty != TEXT:
+                    raise Problem('endswith on %s with %s' % (v0.ty, v1.ty))
+                return [], Val(A('endswith', v1.term, v0.term), BOOL)
             if f.attr in ('strip', 'split') and len(args) == 1 and isinstance(args[0], ast.Constant) \
                     and isinstance(args[0].value, str) and len(args[0].value) == 1:
                 b0, v0 = self.expr(f.value, env)
@@ -1171,7 +1274,7 @@ class Fn:
             b1, v1 = self.expr(args[1], env)
             if b0 or b1 or v0.ty != TEXT or v1.ty not in (TEXT, OPT, NONE):
                 raise Problem('resolve_asset_spec(%s, %s)' % (v0.ty, v1.ty))
-            return [], Val(A('resolve_asset_spec', v0.term, self.as_opt(v1)), PAIRPT)
+            return [], Val(A('gen_resolve_asset_spec', v0.term, self.as_opt(v1)), PAIRPT)
         if name == '_compile_content_encodings' and len(args) == 1:
             self.module.check_translated(name)
             b, v = self.expr(args[0], env)
@@ -1311,7 +1414,7 @@ class Fn:
 
 # ------------------------------------------------------------------ module-level checks
 class Module:
-    def __init__(self, src_root, rel='pyramid/static.py', cls='static_view'):
+    def __init__(self, src_root, rel='pyramid/static.py', cls='static_view', strict_class=True):
         self.path = os.path.join(src_root, rel)
         with open(self.path) as f:
             self.tree = ast.parse(f.read())
@@ -1338,8 +1441,8 @@ class Module:
         if cls is None:
             return
         self.cls = next((n for n in self.tree.body if isinstance(n, ast.ClassDef) and n.name == cls), None)
-        if self.cls is None or self.cls.bases or self.cls.decorator_list or self.cls.keywords:
-            raise Problem('class static_view not found / has bases or decorators')
+        if self.cls is None or (strict_class and (self.cls.bases or self.cls.decorator_list or self.cls.keywords)):
+            raise Problem('class %s not found / has bases or decorators' % cls)
         for n in self.cls.body:
             if isinstance(n, ast.FunctionDef):
                 if n.name in self.methods:
@@ -1417,9 +1520,10 @@ def translate(src_root):
         fallback = {}
     out = {}
     mods = {}
-    for rel, cls in (('pyramid/static.py', 'static_view'), ('pyramid/traversal.py', None)):
+    for rel, cls in (('pyramid/static.py', 'static_view'), ('pyramid/traversal.py', None), ('pyramid/asset.py', None),
+                     ('pyramid/config/__init__.py', 'Configurator'), ('pyramid/config/views.py', 'StaticURLInfo')):
         try:
-            mods[rel] = Module(src_root, rel, cls)
+            mods[rel] = Module(src_root, rel, cls, strict_class=(rel == 'pyramid/static.py'))
         except (Problem, OSError, SyntaxError) as e:
             problems.append('translator: %s: %s' % (rel, e))
             mods[rel] = None
